@@ -5,9 +5,13 @@ pub mod c04;
 pub mod c05;
 pub mod c06;
 pub mod c07;
+pub mod c08;
 pub mod c09;
 pub mod c10;
+pub mod c17;
+pub mod c18;
 pub mod c19;
+pub mod c20;
 pub mod c11;
 pub mod c12;
 pub mod c13;
@@ -28,9 +32,13 @@ pub fn lookup(id: &str) -> Option<CheckFn> {
         "C05" => c05::run,
         "C06" => c06::run,
         "C07" => c07::run,
+        "C08" => c08::run,
         "C09" => c09::run,
         "C10" => c10::run,
+        "C17" => c17::run,
+        "C18" => c18::run,
         "C19" => c19::run,
+        "C20" => c20::run,
         "C11" => c11::run,
         "C12" => c12::run,
         "C13" => c13::run,
@@ -46,6 +54,7 @@ pub fn hang_case(id: &str, bytes: &[u8]) {
     match id {
         "C16" => c16::hang_case(bytes),
         "C04" => c04::hang_case(bytes),
+        "C17" => c17::hang_case(bytes),
         _ => {},
     }
 }
